@@ -375,3 +375,46 @@ func jsonSame(a, b []byte) bool {
 }
 
 var _ = register("H_C08_legacy", H_C08_legacy)
+
+// H_C08_created: an entry made by CreateEntryWithIO is the entry that was stored: after the caller goes on using
+// what it handed in (ticks or merges the clock to build its next entry, reuses the link slices) the returned
+// entry still equals its stored block in every field and still encodes to its identifier (seed C08-k).
+func H_C08_created() {
+	ids, _ := realIdentities("userA")
+	api := newMemAPI()
+	io, err := cbor.IO(&entry.Entry{}, &entry.LamportClock{})
+	vx.Assert("C08", err == nil, "the default codec is available")
+	t := vx.IntRange("t", 0, 1<<62)
+	clk := entry.NewLamportClock(ids[0].PublicKey, t)
+	next, refs := cids(10, 1+vx.Choice("nn", 2)), cids(20, vx.Choice("nr", 2))
+	data := &entry.Entry{Payload: []byte("hi"), LogID: "X", Next: next, Refs: refs, Clock: clk}
+	e, err := entry.CreateEntryWithIO(ctx, api, ids[0], data, nil, io)
+	vx.Assert("C08", err == nil && e != nil, "creating an entry succeeds")
+	if err != nil || e == nil {
+		return
+	}
+	t0 := e.GetClock().GetTime()
+	vx.Assert("C08", t0 == t, "the created entry carries the clock time it was given")
+	switch vx.Choice("after", 3) {
+	case 0:
+		clk.Tick()
+	case 1:
+		clk.Merge(entry.NewLamportClock(ids[0].PublicKey, t+3))
+	case 2:
+		data.SetClock(entry.NewLamportClock(ids[0].PublicKey, t+1))
+	}
+	next[0] = vx.Cid(11)
+	d, err := entry.FromMultihashWithIO(ctx, api, e.GetHash(), ids[0].Provider, io)
+	vx.Assert("C08", err == nil && d != nil, "reading the created entry back succeeds")
+	if err != nil || d == nil {
+		return
+	}
+	vx.Cover("created-then-inputs-reused")
+	vx.Assert("C08", e.GetClock().GetTime() == t0, "a created entry keeps its clock time when the caller advances the clock it passed in")
+	assertSameFields("C08", d, e.(*entry.Entry), "created entry / its stored block after the caller reused its inputs")
+	h2, err := entry.ToMultihashWithIO(ctx, e, api, nil, io)
+	vx.Assert("C08", err == nil && h2.Equals(e.GetHash()), "a created entry still encodes to its identifier after the caller reused its inputs")
+	vx.Assert("C08", e.Verify(ids[0].Provider, io) == nil, "a created entry still verifies after the caller reused its inputs")
+}
+
+var _ = register("H_C08_created", H_C08_created)
